@@ -26,6 +26,20 @@ def command_loop(b, ex):
     raise ShapeNotRecognised("no command loop around read_from_gui in play_game_uci")
 
 
+def _first_token(x):
+    """x reads element 0 of the token list: `tokens[0]` on a Vec (Index::index call) or on a slice
+    (built-in indexing, which is what the same expression becomes once the tokens are passed on as
+    `&[&str]`)."""
+    for y in subexprs(x):
+        if y[0] == "call" and y[1].endswith("::index") and len(y[2]) == 2 and y[2][1] == ("const", 0):
+            return True
+        if y[0] == "index" and y[2] == ("const", 0):
+            return True
+        if y[0] == "cidx" and y[2] == 0:
+            return True
+    return False
+
+
 def arms(b, ex, loop):
     """{command string: (switch bb, true target)} and the default target."""
     out = {}
@@ -36,7 +50,7 @@ def arms(b, ex, loop):
         d = ex.switch_discr(s)
         if d[0] == "bin" and d[1] == "Eq":
             for x, k in ((strip_refs(d[2]), strip_refs(d[3])), (strip_refs(d[3]), strip_refs(d[2]))):
-                if k[0] == "str" and any(y[0] == "call" and y[1].endswith("::index") and y[2][1] == ("const", 0) for y in subexprs(x)):
+                if k[0] == "str" and _first_token(x):
                     t = b.term(s)
                     ft = [tg for v, tg in t["cases"] if v == 0]
                     out[k[1]] = (s, t["otherwise"], ft[0] if ft else None)
@@ -315,6 +329,41 @@ def r17_2(ctx):
         ctx.ob("arm(quit):exits", exits_process(b, tt), b.where(b.term_loc(s)), "every path through the quit arm ends the process")
 
 
+def _from_split(ex, v):
+    """v (a Vec or a slice of it) is a collected `str::split`: it has at least one element."""
+    return any(y[0] == "call" and y[1] == "std::iter::Iterator::collect" and any(
+        z[0] == "call" and z[1] in ("core::str::<impl str>::split", "core::str::<impl str>::split_whitespace_never") for z in subexprs(y))
+        for y in data_slice(ex, strip_refs(v)))
+
+
+def _slice_index_idiom(b, ex, bb):
+    """The bounds assert of a built-in slice index `s[k]` (what `v[k]` on a Vec becomes when the
+    tokens are handed on as `&[&str]`): I5 for k == 0 on a collected split, I1 for a dominating
+    length fact."""
+    t = b.term(bb)
+    c = ex.operand(t["cond"], b.term_loc(bb))
+    if not (c[0] == "bin" and c[1] == "Lt" and c[2][0] == "const" and isinstance(c[2][1], int) and c[3][0] == "len"):
+        return None
+    k, v = c[2][1], strip_refs(c[3][1])
+    if k == 0 and _from_split(ex, v):
+        return "I5: element 0 of a collected `str::split`, which always yields at least one item"
+    flip = {"Lt": "Gt", "Gt": "Lt", "Le": "Ge", "Ge": "Le", "Eq": "Eq", "Ne": "Ne"}
+    neg = {"Lt": "Ge", "Ge": "Lt", "Gt": "Le", "Le": "Gt", "Eq": "Ne", "Ne": "Eq"}
+    for d, vals, excl, s, tg in dominating_facts(b, ex, bb):
+        truth = False if vals == [0] else (True if (vals is None and excl == [0]) else None)
+        if truth is None or d[0] != "bin" or d[1] not in flip:
+            continue
+        for a, c2, op in ((d[2], d[3], d[1]), (d[3], d[2], flip[d[1]])):
+            is_len = (a[0] == "len" and strip_refs(a[1]) == v) or (a[0] == "call" and a[1].endswith("::len") and a[2] and strip_refs(a[2][0]) == v)
+            if c2[0] == "const" and is_len:
+                if not truth:
+                    op = neg[op]
+                lo = {"Eq": c2[1], "Gt": c2[1] + 1, "Ge": c2[1]}.get(op)
+                if lo is not None and 0 <= k < lo:
+                    return "I1: length %s %d established at %s, index %d" % ({"Eq": "==", "Gt": ">", "Ge": ">="}[op], c2[1], b.where(b.term_loc(s)), k)
+    return None
+
+
 def r17_6(ctx):
     """No panic edge in the command loop outside the position/go arms: whatever the line is, reading
     it, splitting it and dispatching on its first word cannot terminate the engine.  (What position and
@@ -344,6 +393,10 @@ def r17_6(ctx):
             cnt[kind] = cnt.get(kind, 0) + 1
             iv = iv or Intervals(b)
             ok, d = iv.assert_holds(bb)
+            if not ok and kind == "bounds":
+                how = _slice_index_idiom(b, ex, bb)
+                if how:
+                    ok, d = True, how
             ctx.ob("loop:assert:%s#%d" % (kind, cnt[kind]), ok, b.where(b.term_loc(bb)), d if ok else "a %s panic is possible while dispatching a line: %s" % (kind, b.text_at(b.term_loc(bb))[:80]))
         elif t["k"] == "call":
             c = callee_of(t) or ""
@@ -354,9 +407,7 @@ def r17_6(ctx):
                 how = None
                 # I5: `line.split(..).collect::<Vec<_>>()[0]` — split yields at least one item
                 if len(args) == 2 and args[1] == ("const", 0):
-                    sl = list(data_slice(ex, strip_refs(args[0])))
-                    if any(y[0] == "call" and y[1] == "std::iter::Iterator::collect" and any(
-                            z[0] == "call" and z[1] in ("core::str::<impl str>::split", "core::str::<impl str>::split_whitespace_never") for z in subexprs(y)) for y in sl):
+                    if _from_split(ex, args[0]):
                         how = "I5: element 0 of a collected `str::split`, which always yields at least one item"
                 how = how or _i1_vec_index(b, ex, bb, t)
                 what = show_expr(args[1], b) if len(args) == 2 else "?"
